@@ -579,6 +579,23 @@ def _origin_through_places(B, op):
     return o
 
 
+def _mints_owner(F, t):
+    if t.get("callee_trait") == "core::clone::Clone":
+        return True
+    callee = atomics.callee_of(t)
+    if callee in F.bodies:
+        eng = F.__dict__.get("_c03_engine")
+        if eng is None:
+            from .. import effects as _eff
+
+            eng = F.__dict__["_c03_engine"] = _eff.Engine(F)
+        try:
+            return any(e.exit == "ret" and vget(e.vec, "inc") > 0 for e in eng.summary(callee))
+        except Exception:
+            return False
+    return False
+
+
 def _through_unique(F, B, pl, seen, depth=0):
     """Does the place derive (by projection/borrow/move/deref-call) from a UniqueArc-typed value?"""
     if depth > 30 or pl["l"] in seen:
@@ -593,7 +610,10 @@ def _through_unique(F, B, pl, seen, depth=0):
     for d in B.defs().get(pl["l"], []):
         if d[0] == "call":
             t = d[2]
-            # pointer/reference-preserving calls on a derived value (Deref of ManuallyDrop, ptr(), inner(), as_ptr() ...)
+            # pointer/reference-preserving calls on a derived value (Deref of ManuallyDrop, ptr(), inner(), as_ptr() ...) - but
+            # not calls that mint another owner of the same block (`self.0.clone()`: the clone of a sole owner is not one)
+            if _mints_owner(F, t):
+                continue
             for a in t["args"]:
                 ap = operand_place(a)
                 if ap is not None and _through_unique(F, B, ap, seen, depth + 1):
